@@ -20,6 +20,7 @@ import (
 
 	"verifsim/simmap"
 	"verifsim/simos"
+	"verifsim/simrt"
 )
 
 // Case is one simulated invocation (possibly repeated in the same process).
@@ -37,6 +38,9 @@ type Case struct {
 	// Mode "rebuild": instead of main(), parse the grammar once and build the
 	// parser twice from the same grammar value (library use of the builder).
 	Mode string `json:"mode,omitempty"`
+	// StepCap bounds the instrumentation steps (function entries and loop
+	// iterations of pigeon's own packages) one run may take; 0 = no bound.
+	StepCap int64 `json:"step_cap,omitempty"`
 }
 
 // RebuildFunc parses the grammar once and builds it twice with the flags of
@@ -69,6 +73,8 @@ type Run struct {
 	StdoutFull    []byte             `json:"stdout_full,omitempty"`
 	StderrFull    []byte             `json:"stderr_full,omitempty"`
 	FilesFull     map[string][]byte  `json:"files_full,omitempty"`
+	Steps         int64              `json:"steps"`
+	StepCapHit    bool               `json:"step_cap_hit,omitempty"`
 }
 
 // Result is the answer to a Case.
@@ -93,9 +99,17 @@ func RunOnce(mainFn func(), c *Case) (r Run) {
 	// whatever goes through the standard logger belongs to the simulated stderr
 	log.SetOutput(stderrProxy{})
 	simmap.Configure(c.MapMode, c.MapSeed, true)
+	stepCap := c.StepCap
+	if stepCap <= 0 {
+		stepCap = 1 << 62
+	}
+	cl := simrt.Solo(stepCap)
 	func() {
 		defer func() {
 			if e := recover(); e != nil {
+				if cl.Aborted {
+					return // the logical-time watchdog stopped the run
+				}
 				if _, ok := e.(simos.ExitSentinel); ok || w.Exited {
 					return
 				}
@@ -109,6 +123,8 @@ func RunOnce(mainFn func(), c *Case) (r Run) {
 		}()
 		mainFn()
 	}()
+	r.Steps, r.StepCapHit = cl.Steps, cl.Aborted
+	cl.Cap = 1 << 62 // whatever still runs (deferred work of a later case) is not charged to this one
 	r.ExitCalled = w.Exited
 	r.Exit = w.ExitCode
 	r.Fired = w.Fired
